@@ -555,6 +555,7 @@ def run(ctx):
     per = ctx.n(6, 8)
     reps = ctx.n(2, 3)
     for it in range(n):
+        core.release_jax(8)
         cfg, d, order = random_config(ctx, it)
         rng = ctx.rng
         field = problems.random_field(rng, d, order, max_degree=2)
